@@ -22,6 +22,8 @@ fn streams(rng: &mut StdRng, n: usize, max: u64) -> Vec<StreamSpec> {
             reset_at: None,
             stop_at: None,
             start_us: pick(rng, &[0u64, 0, 1_000, 50_000]),
+            write_mode: pick(rng, &["", "", "vec", "tokio", "tokio_vec"]).to_string(),
+            read_mode: pick(rng, &["", "", "vec2", "vec8", "tokio64", "tokio4096"]).to_string(),
             ..Default::default()
         }
     }).collect()
@@ -190,6 +192,18 @@ pub fn scenario(family: &str, seed: u64) -> Scenario {
             }
         }
         _ => panic!("unknown family {family}"),
+    }
+    // vectored / buffered writers are interesting when the send buffer is smaller than one application write
+    if sc.streams.iter().any(|sp| sp.write_mode.starts_with("tokio")) && rng.random_bool(0.7) {
+        let b = pick(rng, &[1500u32, 2000, 3000, 6000]);
+        sc.c.send_buf = b;
+        sc.s.send_buf = b;
+        for sp in &mut sc.streams {
+            if sp.write_mode.starts_with("tokio") {
+                sp.chunk = pick(rng, &[1500usize, 3000, 4096, 10_000]);
+                sp.reply_chunk = pick(rng, &[1500usize, 3000, 4096]);
+            }
+        }
     }
     small_chunks_fix(&mut sc.streams);
     // the path MTU is at most what the smaller endpoint accepts (larger datagrams are dropped, not truncated)
